@@ -318,6 +318,31 @@ class Violation(Exception):
         self.detail = detail or {}
 
 
+# name -> fn(explorer, prev_node, aev, next_node) raising Violation.  Set by a property
+# (e.g. C09) that piggybacks on the explorations of the others; results are kept apart
+# from the host property's own violations.
+SIDE_CHECKS: dict = {}
+
+
+def result_of(ex: "Explorer", sample=None, extra=None):
+    d = ex.stats.as_counts()
+    d["capped"] = ex.capped
+    r = {
+        "counts": d,
+        "violations": ex.violations,
+        "side": ex.side_violations,
+        "errors": ex.stats.errors[:3],
+    }
+    if sample is not None:
+        sample = dict(sample)
+        sample.setdefault("states", ex.stats.states)
+        sample.setdefault("transitions", ex.stats.transitions)
+        r["sample"] = sample
+    if extra:
+        r.update(extra)
+    return r
+
+
 class Explorer:
     """BFS over abstract-event histories of one program.
 
@@ -358,6 +383,7 @@ class Explorer:
         self.max_states = max_states
         self.capped = False
         self.age_of = age_of
+        self.side_violations: dict = {k: [] for k in SIDE_CHECKS}
 
     # -- one transition, all tie-break outcomes
     def successors(self, node: Node, aev):
@@ -470,6 +496,12 @@ class Explorer:
                         except Violation as v:
                             self._record(v, node, aev, taken)
                             bad = True
+                    for name, fn in SIDE_CHECKS.items():
+                        try:
+                            fn(self, node, aev, nxt)
+                        except Violation as v:
+                            if len(self.side_violations[name]) < 5:
+                                self._record(v, node, aev, taken, into=self.side_violations[name])
                     if bad:
                         continue
                     key = canon_key(nxt.state, _aux_key(nxt.aux), self.age_of)
@@ -499,11 +531,11 @@ class Explorer:
             )
         self.stats.validated += 1
 
-    def _record(self, v: Violation, node, aev, taken):
+    def _record(self, v: Violation, node, aev, taken, into=None):
         hist = list(node.hist)
         if aev is not None:
             hist.append((aev, tuple(taken or ())))
-        self.violations.append(
+        (self.violations if into is None else into).append(
             {
                 "signature": v.signature,
                 "what": v.what,
